@@ -26,7 +26,7 @@ FILE_NAMES = [
     "api.one", "api.two", "malware", "Label With Space", "\u03b4.label", "UPPER", "x.string", "a", "b.c.d",
     "network.string", "caf\u00e9", "k_w", "0", "api.kernel32", "shell.cmd", ".hidden", "words.txt", "backup~",
 ]
-DIR_NAMES = ["sub", "api", "d.e", "\u00fcber", "x y", "n2"]
+DIR_NAMES = ["sub", "api", "d.e", "\u00fcber", "x y", "n2", "v[2]", ".cfg"]
 
 
 def case_variants(rng, w):
@@ -413,7 +413,7 @@ def sched_spec(rng, heavy, no_all=False):
 
 
 MODULES = model.DECODER_MODULES
-KWDIR_FORMS = ["abs", "abs", "rel", "dot", "slash", "abs_slash"]
+KWDIR_FORMS = ["abs", "abs", "rel", "dot", "slash", "abs_slash", "bracket"]
 
 
 def lib_sched_spec(rng):
@@ -548,8 +548,12 @@ def gen_c09(seed, shipped, tier="quick"):
             words = sorted(set(words) | {v[1], v[2]})
     ncorp = rng.choice([1, 1, 2, 2, 3, 4])
     corpus = [gen_input(rng, words, hot, exotic=rng.random() < 0.2, bulk=rng.random() < 0.1, sizes=[4200, 4200, 5000, 9000]) for _ in range(ncorp)]
+    if not use_shipped and rng.random() < 0.04:
+        # a buffer beyond a megabyte (memory dumps, big scripts): "only for large values" code paths
+        filler = b"lorem ipsum dolor sit amet -- 0123456789 -- the quick brown fox\n"
+        corpus[0] = corpus[0][:1500] + b"\n" + filler * ((1 << 20) // len(filler) + rng.randint(1, 400)) + corpus[0][:1500]
     sibling = None
-    if rng.random() < 0.35:
+    if rng.random() < 0.35 and len(corpus[0]) < 100000:
         if rng.random() < 0.5:
             corpus[0] = record_input(rng, list(words) + list(hot))
         sib = same_length_sibling(rng, corpus[0], list(words) + list(hot))
@@ -557,7 +561,7 @@ def gen_c09(seed, shipped, tier="quick"):
             corpus.append(sib)
             sibling = len(corpus) - 1
             ncorp = len(corpus)
-    ascii_labels = use_shipped or all(ord(ch) < 128 for f in kw["files"] for ch in f["path"])
+    ascii_labels = use_shipped or all(ord(ch) < 128 for path in [f["path"] for f in kw["files"]] + list(kw["dirs"]) for ch in path)
     keys = []
     for _ in range(rng.randint(1, 3)):
         i = rng.randrange(ncorp)
@@ -688,6 +692,11 @@ def gen_c09(seed, shipped, tier="quick"):
             "lib_sched": lib_sched_spec(rng),
             "ops": ops,
         })
+        if ascii_labels and rng.random() < 0.15:
+            # a genuinely non-UTF-8 process (legacy locale): only where every path the run touches is ASCII
+            worlds[-1]["env"]["LC_ALL"] = "C"
+            worlds[-1]["env"].setdefault("vars", {}).update({"PYTHONUTF8": "0", "PYTHONCOERCECLOCALE": "0"})
+            worlds[-1]["env"]["vars"].pop("LANG", None)
         # --json and --replace write pure ASCII / raw bytes whatever the labels; the default mode does so
         # when the labels are ASCII (world.py does not apply the knob otherwise)
         worlds[-1]["io"]["stdout_encoding"] = rng.choice(["utf-8", "utf-8", "latin-1", "ascii", "cp1252", "iso8859-15"])
